@@ -104,17 +104,17 @@ def guarded(f, t=2.0):
 
     def on(sig, frm):
         raise _T()
-    old = signal.signal(signal.SIGALRM, on)
+    old = signal.signal(signal.SIGPROF, on)
     try:
         try:
-            signal.setitimer(signal.ITIMER_REAL, t)
+            signal.setitimer(signal.ITIMER_PROF, t)
             return f()
         finally:
-            signal.setitimer(signal.ITIMER_REAL, 0)
+            signal.setitimer(signal.ITIMER_PROF, 0)
     except _T:
         return None
     finally:
-        signal.signal(signal.SIGALRM, old)
+        signal.signal(signal.SIGPROF, old)
 
 
 def or_to_mf(g):
